@@ -69,6 +69,23 @@ def r_shutdown_api(e, R):
         gl = _global_lock(e)
         R.check(e.token_in(held, gl), "R-SHUTDOWN-API", "shutdown: join under the global shutdown lock (shared with the at-exit hook)",
                 f.short, norm(c), "manager join outside the lock shared with the at-exit hook", e.loc(f, c))
+    # the manager thread (and its wake-up channel) is read only after the flag was set.  Setting the flag takes the shutdown
+    # lock, which a concurrent first submit() holds from its gate test until it has started the manager thread: a read made
+    # before that barrier may see None for a thread an *accepted* submit is about to start, and shutdown(wait=True) would
+    # return without waiting for that task.
+    selfn = f.params[0]
+    for n in g.nodes:
+        if n.kind not in ("stmt", "test", "with_enter"):
+            continue
+        for x in _walk_noscope(n.ast) if n.ast is not None else ():
+            if isinstance(x, ast.Attribute) and isinstance(x.ctx, ast.Load) and isinstance(x.value, ast.Name) and x.value.id == selfn:
+                vals = set(e.pt.ev(f, x))
+                if vals & a.manager_objs or vals & getattr(a, "wakeup_objs", set()):
+                    R.check(any(g.dominates(fl, n) for fl in flagn), "R-SHUTDOWN-API",
+                            f"shutdown: `{norm(x)}` is read after the shutdown flag (and its lock barrier)", f.short, norm(n.ast)[:70],
+                            f"`{norm(x)}` is read before flag_as_shutting_down(): a submit() running concurrently holds the shutdown lock until it "
+                            "has started the manager thread, so this read can miss that thread; shutdown(wait=True) then returns while the "
+                            "accepted task is still pending and the workers are alive", e.loc(f, x))
     # submit after shutdown raises ShutdownExecutorError
     bt, st, sg = submit_gate(e)
     if st is not None:
